@@ -12,8 +12,15 @@ import (
 
 // sameExpr: structural equality of two SSA values (go/ssa performs no CSE, so
 // `a+b` written twice yields two instructions).
-func sameExpr(a, b ssa.Value, depth int) bool {
+func sameExpr(a, b ssa.Value, depth int) bool { return sameExprSubst(a, b, depth, nil) }
+
+// sameExprSubst is sameExpr with the values of a first replaced through subst (a helper's
+// parameters standing for the arguments of the call that reaches it).
+func sameExprSubst(a, b ssa.Value, depth int, subst map[ssa.Value]ssa.Value) bool {
 	a, b = core.SkipConv(a), core.SkipConv(b)
+	if t, ok := subst[a]; ok {
+		a = core.SkipConv(t)
+	}
 	if a == b {
 		return true
 	}
@@ -29,11 +36,11 @@ func sameExpr(a, b ssa.Value, depth int) bool {
 		if !ok || x.Op != y.Op {
 			return false
 		}
-		if sameExpr(x.X, y.X, depth-1) && sameExpr(x.Y, y.Y, depth-1) {
+		if sameExprSubst(x.X, y.X, depth-1, subst) && sameExprSubst(x.Y, y.Y, depth-1, subst) {
 			return true
 		}
 		if x.Op == token.ADD || x.Op == token.MUL {
-			return sameExpr(x.X, y.Y, depth-1) && sameExpr(x.Y, y.X, depth-1)
+			return sameExprSubst(x.X, y.Y, depth-1, subst) && sameExprSubst(x.Y, y.X, depth-1, subst)
 		}
 	case *ssa.UnOp:
 		y, ok := b.(*ssa.UnOp)
@@ -44,14 +51,14 @@ func sameExpr(a, b ssa.Value, depth int) bool {
 			fa, ok1 := x.X.(*ssa.FieldAddr)
 			fb, ok2 := y.X.(*ssa.FieldAddr)
 			if ok1 && ok2 {
-				return fa.Field == fb.Field && sameExpr(fa.X, fb.X, depth-1)
+				return fa.Field == fb.Field && sameExprSubst(fa.X, fb.X, depth-1, subst)
 			}
 			return false
 		}
-		return sameExpr(x.X, y.X, depth-1)
+		return sameExprSubst(x.X, y.X, depth-1, subst)
 	case *ssa.Field:
 		y, ok := b.(*ssa.Field)
-		return ok && x.Field == y.Field && sameExpr(x.X, y.X, depth-1)
+		return ok && x.Field == y.Field && sameExprSubst(x.X, y.X, depth-1, subst)
 	case *ssa.Call:
 		// pure accessor calls with identical callee and arguments (e.g. r.Num())
 		y, ok := b.(*ssa.Call)
@@ -59,11 +66,11 @@ func sameExpr(a, b ssa.Value, depth int) bool {
 			return false
 		}
 		for i := range x.Call.Args {
-			if !sameExpr(x.Call.Args[i], y.Call.Args[i], depth-1) {
+			if !sameExprSubst(x.Call.Args[i], y.Call.Args[i], depth-1, subst) {
 				return false
 			}
 		}
-		return x.Call.IsInvoke() == y.Call.IsInvoke() && (!x.Call.IsInvoke() || sameExpr(x.Call.Value, y.Call.Value, depth-1))
+		return x.Call.IsInvoke() == y.Call.IsInvoke() && (!x.Call.IsInvoke() || sameExprSubst(x.Call.Value, y.Call.Value, depth-1, subst))
 	}
 	return false
 }
